@@ -550,7 +550,7 @@ class TensorDictSequential(TensorDictModule):
                 "No modules left after selection. Make sure that in_keys and out_keys are coherent."
             )
         if isinstance(self.module, nn.ModuleList):
-            return type(self)(*modules)
+            return self._from_selected_modules(modules)
         else:
             # the kept modules are addressed by position: a nested sequence that went through
             # its own select_subsequence is a new object and would not be found by identity
@@ -558,7 +558,14 @@ class TensorDictSequential(TensorDictModule):
             modules_dict = collections.OrderedDict(
                 **{key: val for key, val in _zip_strict(keys, modules)}
             )
-            return type(self)(modules_dict)
+            return self._from_selected_modules(modules_dict)
+
+    def _from_selected_modules(self, modules) -> TensorDictSequential:
+        # the sequence returned by select_subsequence (subclasses with constraints on their modules
+        # override this)
+        if isinstance(modules, collections.OrderedDict):
+            return type(self)(modules)
+        return type(self)(*modules)
 
     def _run_module(
         self,
